@@ -90,7 +90,12 @@ class Check:
         """Return the known finding that lists one of `classifier_tags` with the
         observed signature, or None."""
         for k in self.known:
-            if k.get('tag') in classifier_tags and (k.get('observed') is None or k.get('observed') == obs_sig):
+            if k.get('tag') not in classifier_tags:
+                continue
+            if 'observed_any' in k:
+                if obs_sig in k['observed_any']:
+                    return k
+            elif k.get('observed') is None or k.get('observed') == obs_sig:
                 return k
         return None
 
@@ -114,8 +119,14 @@ class Check:
             print('KNOWN-FINDING: property=%s %s: %s (%d cases; e.g. %s)'
                   % (self.prop, kid, k.get('what', ''), n, what[:300]))
         paths = []
+        d = os.path.join(REPLAY_DIR, self.prop)
+        if os.path.isdir(d):
+            for fn in os.listdir(d):           # replay files of earlier runs of this check are stale
+                try:
+                    os.unlink(os.path.join(d, fn))
+                except OSError:
+                    pass
         if self.violations:
-            d = os.path.join(REPLAY_DIR, self.prop)
             os.makedirs(d, exist_ok=True)
             for i, v in enumerate(self.violations):
                 p = os.path.join(d, '%s-%s-%d.json' % (self.prop, self.tier, i))
